@@ -141,6 +141,21 @@ func (r *rewriter) post(c *astutil.Cursor) bool {
 					}
 				}
 			}
+			// sync/atomic: every atomic operation is a scheduling point (the unchanged library has none; a
+			// change that introduces lock-free state must not escape the interleaving search)
+			if sel, ok := r.info.Selections[f]; ok && sel.Kind() == types.MethodVal && sel.Obj().Pkg() != nil && sel.Obj().Pkg().Path() == "sync/atomic" {
+				r.stats["atomic"]++
+				recv := f.X
+				if tv, ok := r.info.Types[f.X]; ok {
+					if _, isPtr := tv.Type.Underlying().(*types.Pointer); !isPtr {
+						recv = &ast.UnaryExpr{Op: token.AND, X: f.X}
+					}
+				}
+				f.X = r.vrtCall("AtomicPoint", recv)
+			} else if r.isPkg(f.X, "sync/atomic") && len(n.Args) > 0 {
+				r.stats["atomic"]++
+				n.Args[0] = r.vrtCall("AtomicPoint", n.Args[0])
+			}
 			if f.Sel.Name == "MapRange" {
 				if sel, ok := r.info.Selections[f]; ok {
 					if named, ok := sel.Recv().(*types.Named); ok && named.Obj().Pkg() != nil && named.Obj().Pkg().Path() == "reflect" {
